@@ -2,12 +2,15 @@ package engine
 
 import (
 	"bytes"
+	"context"
 	"encoding/json"
 	"fmt"
 	"os"
 	"os/exec"
 	"path/filepath"
 	"sort"
+	"strings"
+	"time"
 
 	"verifsim/internal/comp"
 )
@@ -49,6 +52,16 @@ func (c *cliRunner) close() {
 
 // compile runs the front end; ok=false means it exited non-zero (compile error).
 func (c *cliRunner) compile(src string, o *comp.Options, fontJSON []byte) (string, bool, string) {
+	out, code, stderr := c.run(src, o, fontJSON)
+	if code != 0 {
+		return "", false, stderr
+	}
+	return out, true, stderr
+}
+
+// run executes the front end once and returns the output file's content, the exit status
+// (-1: killed / could not start; -2: still running after 20 s, killed) and stderr.
+func (c *cliRunner) run(src string, o *comp.Options, fontJSON []byte) (string, int, string) {
 	c.n++
 	write := func(name string, b []byte) { _ = os.WriteFile(filepath.Join(c.dir, name), b, 0o644) }
 	write("prog.pory", []byte(src))
@@ -80,19 +93,61 @@ func (c *cliRunner) compile(src string, o *comp.Options, fontJSON []byte) (strin
 	for _, k := range keys {
 		args = append(args, "-s", k+"="+o.Switches[k])
 	}
-	os.Remove(filepath.Join(c.dir, "out.inc"))
-	cmd := exec.Command(c.bin, args...)
+	// Every other invocation writes over the output file of the previous one, as a build
+	// that recompiles into the same .inc does (seeded change C05-25: file opened without
+	// O_TRUNC); the others start without an output file.
+	if c.n%2 == 0 {
+		os.Remove(filepath.Join(c.dir, "out.inc"))
+	}
+	ctx, cancel := context.WithTimeout(context.Background(), 20*time.Second)
+	defer cancel()
+	cmd := exec.CommandContext(ctx, c.bin, args...)
 	cmd.Dir = c.dir
 	var stderr bytes.Buffer
 	cmd.Stderr = &stderr
 	if err := cmd.Run(); err != nil {
-		return "", false, stderr.String()
+		if ctx.Err() != nil {
+			return "", -2, stderr.String()
+		}
+		if ee, ok := err.(*exec.ExitError); ok && ee.ExitCode() >= 0 {
+			return "", ee.ExitCode(), stderr.String()
+		}
+		return "", -1, stderr.String() + " " + err.Error()
 	}
 	b, err := os.ReadFile(filepath.Join(c.dir, "out.inc"))
 	if err != nil {
-		return "", false, "front end exited 0 but wrote no output file: " + err.Error()
+		return "", 1, "front end exited 0 but wrote no output file: " + err.Error()
 	}
-	return string(b), true, ""
+	return string(b), 0, ""
+}
+
+// cliCrashCheck runs the front end on an input the library answered with a located error or
+// with output (C18: every input is answered, never a crash - also by the program users
+// run). It returns "" unless the front end crashed or answered the other way round.
+func cliCrashCheck(src string, o *comp.Options, lib *comp.Result, fontJSON []byte) string {
+	if cli == nil || o.Lint || lib.Panic != "" || lib.Budget != "" || o.NilSwitches || (o.LineMarkers && o.Path != "prog.pory") {
+		return ""
+	}
+	_, code, stderr := cli.run(src, o, fontJSON)
+	switch {
+	case code == -2:
+		return "" // no verdict on wall-clock grounds; the library path has the tick budget
+	case code == 0 && lib.HasOut, code == 1 && !lib.HasOut && strings.Contains(stderr, "PORYSCRIPT ERROR"):
+		return ""
+	case strings.Contains(stderr, "panic:") || strings.Contains(stderr, "goroutine ") || strings.Contains(stderr, "fatal error:") || code < 0 || code > 1:
+		return fmt.Sprintf("the command-line front end crashed (exit status %d) where the library call answers %s: %.300s", code, libAnswer(lib), stderr)
+	}
+	return fmt.Sprintf("the command-line front end exits with status %d (%.200s) where the library call answers %s", code, stderr, libAnswer(lib))
+}
+
+func libAnswer(lib *comp.Result) string {
+	if lib.HasOut {
+		return "with output"
+	}
+	if lib.Err != nil {
+		return fmt.Sprintf("with the error %q", lib.Err.Msg)
+	}
+	return "with neither output nor error"
 }
 
 // cli is the worker's front-end runner (nil = not available).
